@@ -205,6 +205,8 @@ struct Walker {
     max_depth: u32,
     nested_enum: bool,
     oneofs: bool,
+    /// declarations shaped like the ones protoc synthesises (map entries, proto3-optional oneofs) were generated
+    synthetic: bool,
     prev_file: String,
 }
 
@@ -247,7 +249,13 @@ impl Walker {
         self.decls.push((fq.clone(), if top { Kind::Message } else { Kind::NestedMessage }));
         let mut d = DescriptorProto { name: Some(name), ..Default::default() };
         for (i, n) in spec.n.iter().enumerate() {
-            let m = self.message(&fq, n, i, depth + 1);
+            let mut m = self.message(&fq, n, i, depth + 1);
+            // some nested messages carry the map_entry option, as the entries protoc synthesises for map fields do:
+            // they are declarations of the file like any other
+            if (i + depth as usize) % 3 == 2 {
+                m.options = Some(prost_types::MessageOptions { map_entry: Some(true), ..Default::default() });
+                self.synthetic = true;
+            }
             d.nested_type.push(m);
         }
         for (i, v) in spec.e.iter().enumerate() {
@@ -287,6 +295,20 @@ impl Walker {
             self.decls.push((join(&fq, &oname), Kind::Oneof));
             self.oneofs = true;
             d.oneof_decl.push(OneofDescriptorProto { name: Some(oname), options: None });
+        }
+        // a proto3 `optional` field as protoc describes it: its own synthetic oneof `_<field>`, proto3_optional set
+        if (spec.f as usize + spec.o as usize) % 2 == 1 {
+            if let Some(last) = d.field.last_mut() {
+                if last.oneof_index.is_none() {
+                    let oname = format!("_{}", last.name.clone().unwrap_or_default());
+                    last.oneof_index = Some(d.oneof_decl.len() as i32);
+                    last.proto3_optional = Some(true);
+                    self.decls.push((join(&fq, &oname), Kind::Oneof));
+                    self.oneofs = true;
+                    self.synthetic = true;
+                    d.oneof_decl.push(OneofDescriptorProto { name: Some(oname), options: None });
+                }
+            }
         }
         d
     }
@@ -392,6 +414,7 @@ fn model(c: &Case) -> Model {
         max_depth: 0,
         nested_enum: false,
         oneofs: false,
+        synthetic: false,
         prev_file: String::new(),
     };
     let mut registered = vec![false; c.files.len()];
@@ -611,6 +634,7 @@ fn queries(c: &Case, m: &Model, own_files: &[String; 2]) -> Vec<Query> {
         max_depth: 0,
         nested_enum: false,
         oneofs: false,
+        synthetic: false,
         prev_file: String::new(),
     };
     for (i, f) in c.files.iter().enumerate() {
